@@ -7,6 +7,7 @@ package world
 import (
 	"crypto"
 	"crypto/dsa"
+	crand "crypto/rand"
 	"crypto/rsa"
 	"crypto/x509"
 	"embed"
@@ -17,6 +18,7 @@ import (
 	"math/big"
 	"strings"
 	"sync"
+	"time"
 )
 
 //go:embed keys/*.pem
@@ -29,6 +31,29 @@ type KeyPair struct {
 	Signer  crypto.Signer
 	RSA     *rsa.PrivateKey // nil for non-RSA keys
 	DSA     *dsa.PrivateKey // only for sp-dsa (a hand-assembled certificate: crypto/x509 parses DSA keys but cannot issue for them)
+	minted  time.Time       // certificates with a validity window relative to now ("name@from:to") are re-minted after 20 s
+}
+
+// mintWindow issues a fresh self-signed certificate for a static RSA key, valid from now+from to now+to seconds
+// ("<key>@<from>:<to>", e.g. idp-response@-3600:120 = in its last two minutes). The key stays the static one.
+func mintWindow(base *KeyPair, name, window string) *KeyPair {
+	var from, to int
+	if _, err := fmt.Sscanf(window, "%d:%d", &from, &to); err != nil || base.RSA == nil {
+		panic(fmt.Sprintf("world: bad key window %q", name))
+	}
+	now := time.Now()
+	tmpl := &x509.Certificate{SerialNumber: big.NewInt(int64(1000 + len(window))), Subject: base.Cert.Subject,
+		NotBefore: now.Add(time.Duration(from) * time.Second), NotAfter: now.Add(time.Duration(to) * time.Second),
+		KeyUsage: x509.KeyUsageDigitalSignature, BasicConstraintsValid: true}
+	der, err := x509.CreateCertificate(crand.Reader, tmpl, tmpl, &base.RSA.PublicKey, base.RSA)
+	if err != nil {
+		panic(err)
+	}
+	c, err := x509.ParseCertificate(der)
+	if err != nil {
+		panic(err)
+	}
+	return &KeyPair{Name: name, CertDER: der, Cert: c, Signer: base.Signer, RSA: base.RSA, minted: now}
 }
 
 var (
@@ -43,7 +68,15 @@ var RSAKeyNames = []string{"sp-a", "sp-b", "sp-c", "sp-2048"}
 func Key(name string) *KeyPair {
 	keyMu.Lock()
 	defer keyMu.Unlock()
-	if k, ok := keyCache[name]; ok {
+	if k, ok := keyCache[name]; ok && (k.minted.IsZero() || time.Since(k.minted) < 20*time.Second) {
+		return k
+	}
+	if base, window, ok := strings.Cut(name, "@"); ok {
+		keyMu.Unlock()
+		bk := Key(base)
+		keyMu.Lock()
+		k := mintWindow(bk, name, window)
+		keyCache[name] = k
 		return k
 	}
 	b, err := keyFS.ReadFile("keys/" + name + ".pem")
